@@ -104,6 +104,7 @@ type Exec struct {
 	entryVals   map[types.Object]Value
 	covers      []*Cover
 	quantFact   map[*Term]bool
+	loopEntry   *State
 }
 
 func NewExec(prog *Prog, ts *TermStore) *Exec {
